@@ -8,6 +8,7 @@ package splitcarfetcher
 //   5xx/4xx:<rel>    error status with a body of  (requested length + rel) bytes  (rel = -1, 0, +1, +4096)
 //   200full          Range header ignored: 200 + whole file
 //   206trunc         correct 206 headers, body cut short, connection aborted
+//   206empty         correct 206 status, empty body (the read ends with exactly io.EOF)
 //   416              416 with an empty body
 // Oracle (the statement): ReadAt returns exactly F[off:off+len(p)] with a nil error, or an error; an error
 // is acceptable only when the server misbehaved on a request made during that call; a read reaching past the
@@ -166,6 +167,11 @@ func (s *c17Server) handle(w http.ResponseWriter, r *http.Request) {
 			fl.Flush()
 		}
 		panic(http.ErrAbortHandler)
+	case mode == "206empty":
+		// correct 206 headers but a (cleanly) empty body: the client's io.ReadFull ends with exactly io.EOF
+		w.Header().Set("Content-Range", fmt.Sprintf("bytes %d-%d/%d", rs, re, len(s.f)))
+		w.Header().Set("Content-Length", "0")
+		w.WriteHeader(http.StatusPartialContent)
 	case mode == "416":
 		w.Header().Set("Content-Range", fmt.Sprintf("bytes */%d", len(s.f)))
 		w.WriteHeader(http.StatusRequestedRangeNotSatisfiable)
@@ -472,7 +478,7 @@ func TestVerifC17HTTP(t *testing.T) {
 		k    int
 	}{
 		{"5xx:-1", 1}, {"5xx:0", 1}, {"5xx:1", 1}, {"5xx:4096", 1}, {"4xx:-1", 1}, {"4xx:0", 1}, {"4xx:300", 1},
-		{"200full", 1}, {"206trunc", 1}, {"416", 1},
+		{"200full", 1}, {"206trunc", 1}, {"206empty", 1}, {"416", 1},
 	}
 	sizes := []int{1, 2, 127, 128, 1000, 4133}
 	nd := 0
@@ -532,7 +538,7 @@ func TestVerifC17HTTP(t *testing.T) {
 	// ---- seeded random scenarios
 	rng := rand.New(rand.NewSource(ev.Seed()*7919 + 171))
 	ns := ev.Pick(250, 6000)
-	modes := []string{"5xx:-1", "5xx:0", "5xx:1", "5xx:4096", "4xx:0", "4xx:300", "200full", "206trunc", "416"}
+	modes := []string{"5xx:-1", "5xx:0", "5xx:1", "5xx:4096", "4xx:0", "4xx:300", "200full", "206trunc", "206empty", "416"}
 	for i := 0; i < ns && !rec.Enough(); i++ {
 		size := []int{1, 2, 3, 16, 100, 1000, 4133, 1 + rng.Intn(3000)}[rng.Intn(8)]
 		S := int64(size)
